@@ -99,6 +99,10 @@ func (j *jb) treeOrBig(v interface{}) {
 var treeReader rjson.ValueReader // reused across the whole run
 
 func runTree(sw *shardWriter, j *jb, data []byte, segs []seg, st *genStats) {
+	runTreeWith(&treeReader, sw, j, data, segs, st)
+}
+
+func runTreeWith(rd *rjson.ValueReader, sw *shardWriter, j *jb, data []byte, segs []seg, st *genStats) {
 	orig := append([]byte{}, data...)
 	panics := 0
 	j.reset()
@@ -143,7 +147,7 @@ func runTree(sw *shardWriter, j *jb, data []byte, segs []seg, st *genStats) {
 		rv, rvOK = v, err == nil
 		return v, p, err
 	})
-	call(2, func() (interface{}, int, error) { return treeReader.ReadValue(data) })
+	call(2, func() (interface{}, int, error) { return rd.ReadValue(data) })
 	call(3, func() (interface{}, int, error) {
 		v, p, err := rjson.ReadObject(data)
 		if err != nil {
@@ -159,14 +163,14 @@ func runTree(sw *shardWriter, j *jb, data []byte, segs []seg, st *genStats) {
 		return v, p, err
 	})
 	call(5, func() (interface{}, int, error) {
-		v, p, err := treeReader.ReadObject(data)
+		v, p, err := rd.ReadObject(data)
 		if err != nil {
 			return nil, p, err
 		}
 		return v, p, err
 	})
 	call(6, func() (interface{}, int, error) {
-		v, p, err := treeReader.ReadArray(data)
+		v, p, err := rd.ReadArray(data)
 		if err != nil {
 			return nil, p, err
 		}
